@@ -250,6 +250,12 @@ def write_driver_all():
     text += "".join(f"import OQ.Driver.{p}\n" for p in props)
     text += "open Lean\nnamespace OQ.Driver\n\ndef dispatch (prop op : String) (j : Json) : Except String Json :=\n  match prop with\n"
     text += "".join(f'  | "{p}" => OQ.{p}.Driver.handle op j\n' for p in props)
+    if os.path.exists(os.path.join(d, "Py.lean")):
+        text = text.replace("open Lean\n", "import OQ.Driver.Py\nopen Lean\n", 1)
+        text += '  | "PY" => OQ.PY.Driver.handle op j\n'
+    if os.path.exists(os.path.join(LEAN, "OQ", "Generated", "TranslatedDriver.lean")):
+        text = text.replace("open Lean\n", "import OQ.Generated.TranslatedDriver\nopen Lean\n", 1)
+        text += '  | "TR" => OQ.TR.Driver.handle op j\n'
     text += '  | _ => .error s!"unknown property {prop}"\n\nend OQ.Driver\n'
     path = os.path.join(d, "All.lean")
     if not os.path.exists(path) or open(path).read() != text:
